@@ -338,7 +338,7 @@ def run(ctx):
     for e in sub.errors:
         ctx.error("shared C04 rules: " + e)
     for o in sub.obligations:
-        if o.rule == "C04.R2":
+        if o.rule in ("C04.R2", "C04.R6"):     # the scopes generated code builds, and the text of the expressions it evaluates in them
             ctx.ob("C07.R7", o.where, o.ok, o.what, key=o.key, loc=o.loc, detail=o.detail)
     ctx.floor("C07.R7", 80)
 
